@@ -10,8 +10,12 @@ for id in $ids; do
   git -C "$repo" apply "$PWD/seeded/$id/patch.diff"
   prop=$(echo "$id" | cut -c1-3)                      # C16b -> C16 (second-round seeds)
   if [ -f "harness/$(echo $prop | tr A-Z a-z).py" ]; then
+    # the evidence file of the property is kept as the last run on the UNCHANGED tree wrote it (runs against a seeded
+    # tree must never end up in the committed evidence)
+    [ -f "evidence/$prop.json" ] && cp "evidence/$prop.json" "evidence/.$prop.json.keep"
     out=$(./check "$prop" quick 2>&1 | tail -1)
     echo "$id: $out" | sed 's/evaluations.*failures/…/' 
+    [ -f "evidence/.$prop.json.keep" ] && mv "evidence/.$prop.json.keep" "evidence/$prop.json"
   else
     echo "$id: no check yet"
   fi
